@@ -131,6 +131,69 @@ def _sig(v):
     return [pre + a for a in atoms]
 
 
+def _corrupt(recs, seed):
+    """Binding self-test: records on which the law is binding (TLC decides which: Trace_Nest_bound.cfg) are given another record's
+    result, or their own result with one part removed; every such record must be rejected."""
+    import copy, os, random
+    from vlib import VERIF, WORK, ToolError, deq, run_tlc, tlc_strings, write_ndjson
+    if not recs:
+        return []
+    wd = os.path.join(WORK, "C14")
+    os.makedirs(wd, exist_ok=True)
+    path = os.path.join(wd, "bound.trace.ndjson")
+    write_ndjson(path, recs)
+    out = os.path.join(wd, "Trace_Nest.bound.out")
+    sd = os.path.join(VERIF, "spec", "jar")
+    r = run_tlc(sd, "Trace_Nest", open(os.path.join(sd, "Trace_Nest_bound.cfg")).read(), out, workers=1, env={"TRACE": path}, timeout=3000, heap="8g")
+    if r["error"]:
+        raise ToolError("self-test: bound records could not be determined:\n%s" % r["error"])
+    bound = sorted({v["bound"] for v in tlc_strings(out) if isinstance(v, dict) and "bound" in v})
+    os.remove(out)
+    os.remove(path)
+    rnd = random.Random(seed)
+    cand = [recs[i - 1] for i in bound]
+    res = []
+    for _ in range(min(60, 3 * len(cand))):
+        if len(res) >= 40:
+            break
+        a = rnd.choice(cand)
+        c = dict(a)
+        how = rnd.randrange(3)
+        g = a["got"]
+        if how == 0 or g.get("st") != "ok":
+            b = rnd.choice(recs)
+            if a.get("op") != b.get("op") or deq(g, b["got"]):
+                continue
+            c["got"] = b["got"]
+        else:
+            g = copy.deepcopy(g)
+            if a["op"] == "nest_jar":
+                withic = sorted(k for k, v in g["classes"].items() if v["ic"])
+                if how == 1 and withic:
+                    g["classes"][rnd.choice(withic)]["ic"].pop()                       # an InnerClasses row lost
+                else:
+                    k = rnd.choice(sorted(g["classes"]))
+                    rows = g["classes"][k]["rowseq"]
+                    i = rnd.randrange(len(rows))
+                    rows[i] = [rows[i][0], rows[i][1] + "x", rows[i][2], rows[i][3]]    # a reference to another class
+            elif a["op"] == "agree":
+                k = rnd.choice(sorted(g["jarNames"]))
+                del g["jarNames"][k]
+            elif a["op"] in ("apply", "undo", "applyundo"):
+                kids = g["v"].get("kids") or {}
+                if not kids:
+                    continue
+                del kids[rnd.choice(sorted(kids))]                                       # a class lost
+            elif a["op"] in ("remap_nests", "read"):
+                if not g.get("order"):
+                    continue
+                k = g["order"].pop()
+                del g["nests"][k]                                                        # a nest lost
+            c["got"] = g
+        res.append(c)
+    return res
+
+
 P = {
     "dir": "jar",
     "mc": [{"module": "MC_Nest", "cfg": "MC_Nest.cfg", "timeout": {"quick": 900, "thorough": 3000}}],
@@ -140,6 +203,7 @@ P = {
     "classify_vec": _cls,
     "required_classes": _req(),
     "signature": _sig,
+    "corrupt": _corrupt,
     "level_text": "Nest.tla states the nests table (kind derived from the inner name as Nests::read does), the file format as a tokeniser and as a law, and every operation twice: as the code computes it (this_nests filter with its side effect, fn remap, the attribute visitor, remap_class on reference rows; MyRemapper / build_translation, re-keying of members, the inverse table of undo; map_nests with rsplit at the last __, inner_name with the C_<n> rule, member lookup of the enclosing method) and as laws on a result (L1 exactly the listed, present classes satisfying the rule of their kind are renamed to Enclosing'$Inner transitively; L2 every reference row is the input row with class names substituted by the JVMS descriptor grammar, everything that is no reference is unchanged; L3 one InnerClasses row of the JVMS 4.7.6 shape per renamed class, at any position, EnclosingMethod for anonymous and local classes, missing enclosing classes exist afterwards and nothing else appears; L4 apply renames source names and descriptors of the mapping set by the same function whatever the jar, undo(apply(M)) = M on source names and descriptors when the nested names are new; L5 if all entries apply, class names of the nested jar = source class names of the applied mappings; L6 translation keeps every nest with class, enclosing class, enclosing method and inner name in the target namespace). TLC checks operation = law on tables of 1..4 nests (nine kind variants x present / absent x enclosing class present / missing / another nest, chains of depth 1..4, custom and derived inner names, both table orders) over a jar whose classes refer to each other in super class, interface, field and method descriptors, instructions, array classes and existing InnerClasses / EnclosingMethod rows; on mappings naming all / some / none of the classes, with a class lacking a target name and Calamus style targets; on single nests x nine target name shapes (absent, plain, C_<n>, C_<x>, C__D, B__C__D, /__D, no target); on texts of one or two lines from a pool of well- and ill-formed lines. Every case is materialised (classes assembled by the independent assembler, tables as values or as text through Nests::read), run through nest_jar / apply_nests_to_mappings / undo_nests_to_mappings / remap_nests / Nests::read, the result jar re-read with the independent parser; random larger jars (3..9 classes with packages, up to 8 nests, resources) and mapping sets are judged by TLC with the laws on the recorded result.",
     "level_note": "Trusted: TLC, cfkit assembler / parser / reference rows, projection of mapping trees. Left open by the property and accepted either way: position of the new InnerClasses row, content of created enclosing classes beyond their name, creation of the missing enclosing class of a present class whose nest fails its rule (the code creates it), tables in which a listed class absent from the jar is the enclosing class of a present one (the code's answer depends on the order of the table), target names after apply / undo, translation when the target name has a malformed __ split or C_ followed by a non-number (result or refusal). Reference positions the generic class remapper does not handle (Signature, invokedynamic) belong to C07 and are not generated. Access flags outside the ten defined inner-class bits are not generated.",
     "assumptions": ["TLC/SANY/CommunityModules", "cfkit assembler, parser and reference rows", "harness projection (proj_quill.rs)"],
